@@ -4,7 +4,7 @@ floating-point behaviour explored).
 proof:  lean/AdeptProofs/Props/C18.lean over AdeptModel/MinimizerLogic.lean (transcription of the three bounded
         minimizers and of line_search): feasible_always, flags_truthful, converged_means, iterations_bounded,
         terminates, invalid_bounds -- for ALL cost functions (they are function arguments), over any linear ordered
-        field.  The Levenberg family's converged_means is false as coded (finding F-33): `_partial` theorem +
+        field.  The Levenberg family's converged_means is false as coded (finding F-65): `_partial` theorem +
         refutation by `decide` in AdeptProofs/Refute/Minimizer.lean.
 tie:    hook H4 (guarded, add-only) logs every decision of the real code (projection, release, convergence test,
         nearest bound, capture, step limit, damping, line-search clamps / Wolfe test / branch choices); the model
@@ -37,14 +37,14 @@ CORPUS = [
     ("F-18 (Levenberg-Marquardt)", dict(algo="Levenberg-Marquardt", bounded=True, n=3, f="quadd", h=[1.0, 3.0, 2.0], c=[10.3, 7.1, 0.25], lo=[0.1] * 3, up=[1.7, 2.3, 0.9], x0=[0.3, 0.2, 0.7], tol=1e-8), None),
     ("F-20 non-finite exit of the line search (L-BFGS)", dict(algo="L-BFGS", bounded=False, n=2, f="quadd", h=[2.0, 2.0], c=[3.0, 0.0], x0=[0.0, 1.0], bad="inf", rlo=[-mc.RMAX] * 2, rup=[2.0, mc.RMAX]), None),
     ("F-20 (Conjugate-Gradient)", dict(algo="Conjugate-Gradient", bounded=False, n=2, f="quadd", h=[2.0, 2.0], c=[3.0, 0.0], x0=[0.0, 1.0], bad="inf", rlo=[-mc.RMAX] * 2, rup=[2.0, mc.RMAX]), None),
-    ("F-28 two faces reached by the same step (CG)", dict(algo="Conjugate-Gradient", bounded=True, n=2, f="lin", g=[-1.0, -1.0], x0=[0.5, 0.5], lo=[0.0, 0.0], up=[1.0, 1.0]), None),
-    ("F-28 (L-BFGS)", dict(algo="L-BFGS", bounded=True, n=2, f="lin", g=[-1.0, -1.0], x0=[0.5, 0.5], lo=[0.0, 0.0], up=[1.0, 1.0], maxit=3), None),
-    ("F-29 reported cost after max iterations (unbounded LM)", dict(algo="Levenberg-Marquardt", bounded=False, n=2, f="rosen", x0=[-3.0, -3.0], maxit=3), None),
-    ("F-29 (bounded Levenberg)", dict(algo="Levenberg", bounded=True, n=2, f="rosen", x0=[-3.0, -3.0], maxit=3, lo=[-5.0, -5.0], up=[5.0, 5.0]), None),
-    ("F-30 bounds of the wrong length", dict(algo="L-BFGS", bounded=True, n=3, f="quadd", h=[1.0, 1.0, 1.0], c=[0.0, 0.0, 0.0], x0=[1.0, 1.0, 1.0], lo=[-1.0, -1.0, -1.0], up=[2.0, 2.0]), None),
+    ("F-60 two faces reached by the same step (CG)", dict(algo="Conjugate-Gradient", bounded=True, n=2, f="lin", g=[-1.0, -1.0], x0=[0.5, 0.5], lo=[0.0, 0.0], up=[1.0, 1.0]), None),
+    ("F-60 (L-BFGS)", dict(algo="L-BFGS", bounded=True, n=2, f="lin", g=[-1.0, -1.0], x0=[0.5, 0.5], lo=[0.0, 0.0], up=[1.0, 1.0], maxit=3), None),
+    ("F-61 reported cost after max iterations (unbounded LM)", dict(algo="Levenberg-Marquardt", bounded=False, n=2, f="rosen", x0=[-3.0, -3.0], maxit=3), None),
+    ("F-61 (bounded Levenberg)", dict(algo="Levenberg", bounded=True, n=2, f="rosen", x0=[-3.0, -3.0], maxit=3, lo=[-5.0, -5.0], up=[5.0, 5.0]), None),
+    ("F-62 bounds of the wrong length", dict(algo="L-BFGS", bounded=True, n=3, f="quadd", h=[1.0, 1.0, 1.0], c=[0.0, 0.0, 0.0], x0=[1.0, 1.0, 1.0], lo=[-1.0, -1.0, -1.0], up=[2.0, 2.0]), None),
     ("F-19 rounding at a face (open)", dict(algo="Conjugate-Gradient", bounded=True, n=3, f="quadd", h=[1.0, 3.0, 2.0], c=[10.3, 7.1, 0.25], lo=[0.1] * 3, up=[1.7, 2.3, 0.9], x0=[0.3, 0.2, 0.7], tol=1e-8), "rounding-overshoot-at-face<=4ulp"),
-    ("F-32 L-BFGS on a linear cost (open)", dict(algo="L-BFGS", bounded=True, n=1, f="lin", g=[-1.0], x0=[3.9], lo=[2.7], up=[mc.RMAX], maxit=5, tol=1e-9), "lbfgs-zero-curvature-nan-state"),
-    ("F-33 Levenberg holds a variable whose gradient points inward (open)", dict(algo="Levenberg", bounded=True, n=2, f="quadm", H=[2.0, -1.0, -1.0, 2.0], c=[-1.0, -3.0], lo=[0.0, 0.0], up=[10.0, 10.0], x0=[0.0, 0.0], tol=1e-9), "lm-converged-with-inward-gradient-at-bound"),
+    ("F-64 L-BFGS on a linear cost (open)", dict(algo="L-BFGS", bounded=True, n=1, f="lin", g=[-1.0], x0=[3.9], lo=[2.7], up=[mc.RMAX], maxit=5, tol=1e-9), "lbfgs-zero-curvature-nan-state"),
+    ("F-65 Levenberg holds a variable whose gradient points inward (open)", dict(algo="Levenberg", bounded=True, n=2, f="quadm", H=[2.0, -1.0, -1.0, 2.0], c=[-1.0, -3.0], lo=[0.0, 0.0], up=[10.0, 10.0], x0=[0.0, 0.0], tol=1e-9), "lm-converged-with-inward-gradient-at-bound"),
 ]
 
 
